@@ -390,7 +390,7 @@ PROPERTY_REGIONS = {
             ("client::session_pool::SessionPool::get_idle_session", "client::session_pool::SessionPool::add_idle_session", SS + "close",
                                                                          "client::client::Client::create_new_session")),
     "C14": ((SS + "start_client", SS + "close", SS + "recv_loop", SS + "process_stream_data"), ("HeartRequest", "HeartResponse"), (SS + "close",)),
-    "C15": (("client::udp_client::", "server::udp_proxy::"), (), ()),
+    "C15": (("client::udp_client::", "server::udp_proxy::"), (), ("session::stream_reader::StreamReader::buffer_len", "session::stream_reader::StreamReader::is_eof")),
     "C16": (("client::socks5::",), (), ()),
     "C17": (("client::http_proxy::",), (), ()),
     "C18": (("util::cert_reloader::", "server::server::Server::listen", "util::tls::"), (), ("util::cert_reloader::CertReloader::reload",)),
